@@ -24,6 +24,18 @@ var zlPiecesC14 = []string{"", "p",
 	"\xf0\x9f", "\x98\x80", // 😀 split 2+2
 	"\x80", // lone continuation byte (invalid)
 	"é", "ba",
+	// pieces of the second alphabet (gen2 below): a piece that completes a stop sequence begun earlier and holds the same
+	// sequence once more; a piece that completes a stop sequence and ends in the first byte of a character
+	"bab", "b\xc3",
+}
+
+func zlHas16(script []int) bool {
+	for _, t := range script {
+		if t >= 16 {
+			return true
+		}
+	}
+	return false
 }
 
 type zlC14Case struct {
@@ -185,15 +197,22 @@ func ZZVerifC14() {
 	if !thorough {
 		gen = []int{2, 3, 4, 6, 7, 8, 9, 10, 13, 14, 15}
 	}
+	// second alphabet: the two composite pieces next to the pieces they combine with
+	gen2 := []int{2, 3, 8, 16, 17}
 	stops := zlC14StopSets(thorough)
-	// work items: first generated piece x stop set
+	// work items: first generated piece x stop set (x alphabet)
 	var items []string
 	for _, g := range gen {
 		for si := range stops {
-			items = append(items, fmt.Sprintf("%d %d", g, si))
+			items = append(items, fmt.Sprintf("%d %d 1", g, si))
 		}
 	}
-	items = append(items, "0 0") // empty script
+	for _, g := range gen2 {
+		for si := range stops {
+			items = append(items, fmt.Sprintf("%d %d 2", g, si))
+		}
+	}
+	items = append(items, "0 0 1") // empty script
 	budget := 200 * gotime.Second
 	if thorough {
 		budget = 18 * gotime.Minute
@@ -202,9 +221,13 @@ func ZZVerifC14() {
 	ch := &zlDefaultChooser{}
 	r.Fanout(items, evid.FanoutOpts{Env: []string{"GOMAXPROCS=2"}, MemLimitMB: 4096}, func(item string, sub *evid.Run) {
 		var first int
-		var si int
-		fmt.Sscan(item, &first, &si)
+		var si, alpha int
+		fmt.Sscan(item, &first, &si, &alpha)
 		stop := stops[si]
+		gen := gen
+		if alpha == 2 {
+			gen = gen2
+		}
 		var rec func(script []int)
 		runCase := func(script []int) {
 			for _, np := range limits {
@@ -260,6 +283,9 @@ func ZZVerifC14() {
 				return
 			}
 			for _, g := range gen {
+				if alpha == 2 && g < 16 && !zlHas16(script) && len(script) == maxLen-1 {
+					continue // (sequences without a composite piece belong to the first alphabet)
+				}
 				rec(append(script, g))
 			}
 		}
@@ -271,7 +297,7 @@ func ZZVerifC14() {
 	})
 	// the helper functions directly, over the same strings (cheap, in the coordinator)
 	// (runner/common's helpers are enumerated directly by the ollamarunner part)
-	r.Rule(fmt.Sprintf("all sequences of generated token pieces up to length %d over %d pieces (ASCII, a multi-char piece, whitespace, the bytes of multi-byte characters split across tokens, an invalid byte) x %d stop sets (every single stop, ordered pairs) x prediction limits %v, each run through the real completion handler + processBatch with a scripted model; non-trivial = a stop sequence is hit, the limit ends generation, or the generated text is not valid UTF-8", maxLen, len(gen), len(stops), limits))
+	r.Rule(fmt.Sprintf("all sequences of generated token pieces up to length %d over %d pieces (ASCII, a multi-char piece, whitespace, the bytes of multi-byte characters split across tokens, an invalid byte) and over a second alphabet {a, b, a continuation byte, \"bab\", \"b\\xc3\"} (a piece that completes a stop sequence and holds it once more; one that completes it and ends inside a character) x %d stop sets (every single stop, ordered pairs) x prediction limits %v, each run through the real completion handler + processBatch with a scripted model; non-trivial = a stop sequence is hit, the limit ends generation, or the generated text is not valid UTF-8", maxLen, len(gen), len(stops), limits))
 	r.Assume("the generated text is the concatenation of the pieces of the sampled tokens up to EOS / limit / the token that completes the first stop sequence",
 		"'ends immediately before one': the streamed text followed by some stop sequence is a prefix of the generated text (the property does not say which stop when several match)",
 		"generated text that ends in an incomplete character (limit or EOS in the middle of it) must be streamed up to that character; for generated text with invalid bytes inside (which JSON cannot carry and the runner drops on purpose) only whole-UTF-8 pieces, the finish reason and termination are required",
